@@ -661,7 +661,12 @@ def case_occupancy(case):
     try:
         if path == "fit":
             meter = pd.DataFrame({"value": (np.arange(len(idx)) % 7) + 1.0}, index=idx)
-            pdm = create_caltrack_hourly_preliminary_design_matrix(meter, temps)
+            # (optionally the weather series is localized differently from the meter - same instants, in UTC: hour of week, month
+            # weights and bins follow the METER's local clock)
+            pdm = create_caltrack_hourly_preliminary_design_matrix(meter, temps.tz_convert("UTC") if case.get("temps_tz") == "UTC" else temps)
+            if case.get("temps_tz") and (str(pdm.index.tz) != str(idx.tz) or not pdm.index.equals(idx)):
+                viol.append({"clause": "design_index_not_the_meters", "key": dict(key, temps_tz=case["temps_tz"]),
+                             "detail": f"{where0}: the design matrix is indexed in {pdm.index.tz}, the meter in {idx.tz}"})
             seg = segment_time_series(pdm.index, st)
             names = [str(c) for c in seg.columns]
             occ, ob, ub = _tables(names, lookup, dtype, config)
@@ -848,6 +853,8 @@ def cases(tier):
                                 continue
                             out["occupancy"].append({"part": "occupancy", "zone": zone, "path": path, "segment_type": st,
                                                      "lookup": lookup, "dtype": dtype, "bins": config})
+                            if path == "fit" and zone != "UTC" and dtype == "bool" and lookup == LOOKUPS[-1]:
+                                out["occupancy"].append(dict(out["occupancy"][-1], temps_tz="UTC"))
     for zone in ZONES:
         for ft in FIT_TYPES:
             for marker in ("A", "B"):
